@@ -184,7 +184,7 @@ Lemma file_bucket_spec historic t oldest newest hw rk f :
   | FDiscard => True
   end.
 Proof.
-  intros H0 H1 Hrk. unfold file_bucket.
+  intros H0 H1 Hrk. unfold file_bucket, file_decision.
   destruct (round_to_our_time_total t rk H0 H1 Hrk) as (r & Er & Hr & Hb). rewrite Er.
   intros H; inversion H; subst; clear H.
   destruct historic.
@@ -195,4 +195,12 @@ Proof.
   - destruct (newest <? r) eqn:A; [exact I|].
     destruct (r <? oldest) eqn:B; [reflexivity|].
     apply Z.ltb_ge in A, B. auto.
+Qed.
+
+Lemma filed_recent_is_sent_by_ticker historic t oldest newest hw rk r :
+  0 <= t -> t + 2 < two32 -> 1 <= rk <= 3 ->
+  file_bucket historic t oldest newest hw rk = Some (FRecent r) -> ticker_inserts r rk = true.
+Proof.
+  intros H0 H1 Hrk H. pose proof (file_bucket_spec _ _ _ _ _ _ _ H0 H1 Hrk H) as (A & _).
+  unfold ticker_inserts. apply Z.eqb_eq. rewrite A. symmetry. apply u32_id. unfold is_u32, two32. lia.
 Qed.
